@@ -4,6 +4,7 @@ import (
 	"context"
 	"errors"
 	"fmt"
+	"google.golang.org/grpc/metadata"
 	"io"
 	"strings"
 	"time"
@@ -197,6 +198,10 @@ func c14(tier string) []*explore.Scenario {
 	for _, p := range pairs {
 		out = append(out, c14One([][2]string{p[0], p[1]}, bound-1+0))
 	}
+	// a handler that goes on using its stream after the caller has cancelled
+	for _, ops := range []string{"h", "H", "s", "t", "r", "hs", "Hs", "sh", "ts", "hh"} {
+		out = append(out, c14AfterCancel(ops, bound))
+	}
 	// batches of RPCs in flight at once (all kinds, mixed outcomes), repeated from the state the previous batch left
 	out = append(out, c14Batch(8, 2, 1), c14Batch(16, 2, 0), c14Batch(32, 2, 0))
 	if tier == "thorough" {
@@ -298,6 +303,71 @@ func c14Batch(k, rounds, bound int) *explore.Scenario {
 			vsched.Quiesce()
 			if !d.ServeDone {
 				vsched.Fail(fam+"|serve-hang", "after %d batches of %d RPCs: Serve does not return when the connection closes: %s", rounds, k, threadList())
+			}
+		},
+	}
+}
+
+// c14AfterCancel: the caller cancels; the handler notices (its context is
+// done) and only then performs ops on the stream - h SendHeader, H SetHeader,
+// s SendMsg, t SetTrailer, r RecvMsg - before returning. Whatever those calls
+// return, the connection is idle afterwards and Serve can return.
+func c14AfterCancel(ops string, bound int) *explore.Scenario {
+	fam := "C14/release"
+	return &explore.Scenario{
+		Name: "C14/after-cancel/handler-ops=" + ops, Family: fam, Prop: "C14", Bound: bound, Horizon: time.Hour,
+		Run: func() {
+			w := env.NewWorld()
+			d := env.NewDirect(w, env.DirectOpts{Pipe: env.PipeOpts{Cap: 64}})
+			vsched.Settle()
+			idle := c14State(d)
+			vsched.Explore(true)
+			r := w.Rec("s", "Bidi")
+			w.Handlers["s"] = func(r *env.Rec, ss grpc.ServerStream) error {
+				ss.RecvMsg(new(env.Msg))
+				<-ss.Context().Done()
+				for i, op := range ops {
+					md := metadata.MD{fmt.Sprintf("k%d", i): {"v"}}
+					switch op {
+					case 'h':
+						ss.SendHeader(md)
+					case 'H':
+						ss.SetHeader(md)
+					case 's':
+						ss.SendMsg(env.S("late"))
+					case 't':
+						ss.SetTrailer(md)
+					case 'r':
+						ss.RecvMsg(new(env.Msg))
+					}
+				}
+				return status.FromContextError(ss.Context().Err()).Err()
+			}
+			ctx, cancel := context.WithCancel(context.Background())
+			defer cancel()
+			vsched.GoNamed("caller", func() {
+				cs := w.Open(d.CC, ctx, r)
+				if cs != nil {
+					env.CSend(r, cs, "m")
+					cancel()
+					env.CRecvAll(r, cs)
+				}
+				r.CDone = true
+			})
+			vsched.QuiesceTime()
+			after := c14State(d)
+			vsched.Obs("ops=%s idle-again=%v handler returned=%v", ops, after == idle, r.HReturned)
+			if !r.HReturned && r.HStarts > 0 {
+				vsched.Fail(fam+"|hang", "the handler that used its stream (%s) after the caller cancelled never returned; threads: %s", ops, threadList())
+			}
+			if after != idle {
+				vsched.Fail(fam+"|not-idle:"+diffKey(idle, after)+"|after-cancel", "a handler performed %s on its stream after the caller had cancelled: the connection did not return to its idle state:\n%s", ops, diffStates(idle, after))
+			}
+			d.Pipe.A.Break()
+			d.Pipe.B.Break()
+			vsched.Quiesce()
+			if !d.ServeDone {
+				vsched.Fail(fam+"|serve-hang", "a handler performed %s on its stream after the caller had cancelled: Serve does not return when the connection closes; threads: %s", ops, threadList())
 			}
 		},
 	}
